@@ -9,6 +9,7 @@ from ddsim.world import Stop, World, node_of
 BG_OPS = {'gc', 'swap', 'reorder', 'pairs', 'configure', 'knobs', 'arm',
           'finalize', 'arm_final', 'declare', 'undeclare'}
 REORDER_OPS = {'swap', 'reorder', 'pairs'}
+REDO_OPS = {'apply', 'ite', 'quant', 'let', 'cube', 'add_expr', 'fop', 'image', 'find_or_add'}
 
 
 def step_tags(w, ins, owner):
@@ -59,6 +60,7 @@ def execute(w, ins):
     except Exception:
         pass
     r = fn(w, ins)
+    w.last_call = None
     w.touch()   # temporaries of the executor are gone now: observe afresh
     st, cn, dn = step_tags(w, ins, owner)
     w.check_invariants(st, cn, dn)
@@ -75,6 +77,10 @@ def execute(w, ins):
     if w.prev_raised:
         w.stats['raised_steps'] += 1
     w.stats['op:' + ins['op'] + (':skip' if r == 'skip' else '')] += 1
+    if r != 'skip' and ins['op'] in REDO_OPS:
+        w.history.append(ins)
+        if len(w.history) > 40:
+            del w.history[0]
     # event log (no clocks, no PRNG draws)
     sn = w.snapshot(0)
     w.log.append((w.step_no, ins['op'], 'skip' if r == 'skip' else 'ok',
@@ -143,6 +149,7 @@ def run(prop, cfg, seed, trace=None, max_steps=None):
     saved_knobs = (B.REORDER_STARTS, B.REORDER_FACTOR, B.GROWTH_FACTOR)
     w = World(cfg)
     w.bg_seen = 0
+    w.history = []
     w.judged_after_bg = 0
     w.sig = []
     executed = []
@@ -158,11 +165,18 @@ def run(prop, cfg, seed, trace=None, max_steps=None):
                 for ins in gen.prologue(w, cfg, r):
                     executed.append(ins)
                     execute(w, ins)
-                n = cfg['steps'] if max_steps is None else max_steps
-                for _ in range(n):
-                    ins = gen.next_instruction(w, r, cfg)
-                    executed.append(ins)
-                    execute(w, ins)
+                if cfg.get('dense'):
+                    from ddsim import ops_dense
+                    prog = ops_dense.program(cfg, prng.stream(seed, 'dense'))
+                    for ins in ops_dense.interleave(w, cfg, r, prog):
+                        executed.append(ins)
+                        execute(w, ins)
+                else:
+                    n = cfg['steps'] if max_steps is None else max_steps
+                    for _ in range(n):
+                        ins = gen.next_instruction(w, r, cfg)
+                        executed.append(ins)
+                        execute(w, ins)
             epilogue(w)
         except Stop:
             pass
